@@ -8,7 +8,7 @@
 (*   cfg    [kind : "none" | "set" | "dict", keys : Seq(text),              *)
 (*           defaults : Seq(<<key, valuekind, value>>)]   formatter config  *)
 (*   args   Seq(<<key, valuekind, value>>)   the monitor record's mapping   *)
-(*          valuekind "str" (text) | "int" (n) | "half" (n + 1/2) | "bool"  *)
+(*          valuekind "str" | "int" (n) | "half" (n + 1/2) | "whole" (n.0) | "bool" *)
 (*   created (whole seconds), res (resolution in seconds, 0 = no timestamp) *)
 (*                                                                         *)
 (* Format transcribes line_protocol()/LineProtocolFormatter.format() as     *)
@@ -35,6 +35,7 @@ ValueText(kind, v) ==
     CASE kind = "str" -> v
       [] kind = "int" -> IntText(v)
       [] kind = "half" -> IntText(v) \o <<DOT, 53>>
+      [] kind = "whole" -> IntText(v) \o <<DOT, 48>>       \* a float with an integral value: "1.0"
       [] kind = "bool" -> IF v THEN TrueText ELSE FalseText
 
 RECURSIVE Escape(_, _)
@@ -59,7 +60,7 @@ ExpTags(r) ==
     {<<k, ValueText(Lookup(r.args, k)[2], Lookup(r.args, k)[3])>> : k \in wl \cap Keys(r.args)}
     \cup {<<k, ValueText(Lookup(df, k)[2], Lookup(df, k)[3])>> : k \in Keys(df) \ Keys(r.args)}
 \* fields: the remaining items, as a set of <<key, class, value>>, numbers by value
-NumVal(kind, v) == IF kind = "int" THEN <<v, <<>>>> ELSE <<v, <<53>>>>
+NumVal(kind, v) == IF kind \in {"int", "whole"} THEN <<v, <<>>>> ELSE <<v, <<53>>>>
 ExpFields(r) ==
     {LET it == Lookup(r.args, k) IN
        IF it[2] = "str" THEN <<k, "str", it[3]>>
